@@ -82,6 +82,7 @@ def _new_ids(results, canon, old_ids):
 
 
 _CREATED = []
+_OLD_OPS = set()
 
 
 def _apply_map(results, canon, mp):
@@ -92,6 +93,17 @@ def _apply_map(results, canon, mp):
     res.append((cls, _renumber(view, mp)))
   d = dict(canon)
   d['es'] = tuple(tuple((k, v) for k, v in e if k != 'stop') for e in d['es'])
+  # operation records that existed before the run refer to the trials of that time: never renumbered
+  ops = []
+  for s_, c_, lst in d['ops']:
+    lst2 = []
+    for o in lst:
+      od = dict(o)
+      if od['name'] in _OLD_OPS and od['ids'] is not None:
+        od['ids'] = tuple('old:' + i for i in od['ids'])
+      lst2.append(svc.freeze(od))
+    ops.append((s_, c_, tuple(lst2)))
+  d['ops'] = tuple(ops)
   d = dict(_renumber(svc.freeze(d), mp))
   # trials were sorted by numeric id: re-sort by the new labels
   d['trials'] = tuple((s, tuple(sorted(ts, key=lambda t: str(dict(t)['id'])))) for s, ts in d['trials'])
@@ -141,6 +153,9 @@ def run_scenario(sc):
   old_ids = set()
   for s, ts in dict(pre)['trials']:
     old_ids |= {dict(t)['id'] for t in ts}
+  _OLD_OPS.clear()
+  for s_, c_, lst in dict(pre)['ops']:
+    _OLD_OPS.update(dict(o)['name'] for o in lst)
   acts = [RPCS[r] for r in sc['rpcs']]
   # serial reference outcomes (every permutation, real code)
   serial = {}
